@@ -10,7 +10,7 @@
   that follow are delivered intact - from the first one when start and stop
   markers differ, from the second at the latest when they coincide."
 -/
-import IgrisModel.C05.Lemmas
+import IgrisModel.C05.LemmasOvf
 namespace Igris.Gstuff
 open Igris.Proto Igris.C17
 
@@ -100,6 +100,52 @@ theorem overflow_reported (ctx : Ctx) (h : ctx.WF) (r : Recv) (hr : Idle r) (p :
     simp only [NEWPACKAGE] at hlast'
     simp only [CONTINUE, NEWPACKAGE, show ¬ ((0 : Int) = 1) by decide, if_false]
     exact if_neg hlast'
+
+/-- OVERFLOW CLAUSE IN GENERAL FORM.  From ANY receiver state when start ≠ stop
+(from any ready state — between frames or primed — when the markers coincide;
+there an in-frame receiver takes the opening marker for a stop and swallows
+the frame as garbage, which is the "second frame at the latest" of the
+resynchronisation clause), for ANY capacity (0 included) and ANY byte sequence
+between a start and a stop marker — not only frames made by the encoder —
+whose unescaping is valid up to a point `pre` where it has grown beyond
+capacity-1 bytes (whatever follows, valid or not): OVERFLOW is answered,
+NOTHING is delivered, and the receiver is ready for the next frame. -/
+theorem overflow_any_state (ctx : Ctx) (h : ctx.WF) (r : Recv)
+    (hr : ctx.start ≠ ctx.stop ∨ Ready r) (pre rest : List Byte)
+    (hnm : ∀ b ∈ pre ++ rest, b ≠ ctx.start ∧ b ≠ ctx.stop)
+    (u : List Byte) (pend : Bool) (hu : unescPartial ctx pre = some (u, pend))
+    (hbig : r.cap - 1 < u.length) :
+    OVERFLOW ∈ (feed ctx r (ctx.start :: ((pre ++ rest) ++ [ctx.stop]))).2 ∧
+    delivered ctx r (ctx.start :: ((pre ++ rest) ++ [ctx.stop])) = [] ∧
+    Ready (feed ctx r (ctx.start :: ((pre ++ rest) ++ [ctx.stop]))).1 := by
+  have hstart : (newchar ctx r ctx.start).1 = ⟨.s1, 0xFF#8, [], r.cap⟩ ∧
+      (newchar ctx r ctx.start).2 ≠ NEWPACKAGE := by
+    rcases hr with hne | hrd
+    · exact start_primes_distinct ctx h hne r
+    · exact start_primes_ready ctx r hrd
+  obtain ⟨o1, o2, o3⟩ := feed_body_overflow ctx ⟨.s1, 0xFF#8, [], r.cap⟩ pre rest (Or.inl rfl)
+    (by simp [LineOK]) hnm u pend (by simpa [unescFrom, unescPartial] using hu) hbig
+  obtain ⟨p1, p2⟩ := stop_when_idle ctx _ o2
+  generalize pre ++ rest = body at o1 o2 o3 p1 p2 ⊢
+  simp only [feed, delivered, hstart.1, hstart.2, if_false, feed_append, delivered_append, o3,
+    List.nil_append, p1]
+  exact ⟨List.mem_cons_of_mem _ (List.mem_append_left _ o1), trivial, p2⟩
+
+-- non-vacuity: 41 42 43 does not fit into a 3-byte buffer
+example : (Ctx.v1.start ≠ Ctx.v1.stop ∨ Ready (Recv.init 3)) ∧
+    (∀ b ∈ [0x41#8, 0x42#8, 0x43#8] ++ ([] : List Byte), b ≠ Ctx.v1.start ∧ b ≠ Ctx.v1.stop) ∧
+    unescPartial Ctx.v1 [0x41#8, 0x42#8, 0x43#8] = some ([0x41#8, 0x42#8, 0x43#8], false) ∧
+    (Recv.init 3).cap - 1 < [0x41#8, 0x42#8, 0x43#8].length :=
+  ⟨Or.inl (by decide), by decide, by decide, by decide⟩
+
+/-- why `Ready` is required when the markers coincide: a v0 receiver that is in
+the middle of a frame takes the opening marker of the over-long frame for a stop
+marker and swallows the frame as garbage — no OVERFLOW at all (and nothing delivered) -/
+theorem overflow_coincide_inframe_witness :
+    OVERFLOW ∉ (feed Ctx.v0 ⟨.s1, 0x12#8, [0x55#8], 3⟩
+      (Ctx.v0.start :: ([0x41#8, 0x42#8, 0x43#8] ++ [Ctx.v0.stop]))).2 ∧
+    delivered Ctx.v0 ⟨.s1, 0x12#8, [0x55#8], 3⟩
+      (Ctx.v0.start :: ([0x41#8, 0x42#8, 0x43#8] ++ [Ctx.v0.stop])) = [] := by decide +kernel
 
 /-! ### resynchronisation -/
 
@@ -194,6 +240,101 @@ theorem legacy_resync (cap : Nat) (g : List Byte) (p1 : List Byte) (ps : List (L
 theorem legacy_frames_from_init (cap : Nat) (ps : List (List Byte)) (hcap : ∀ p ∈ ps, p.length + 2 ≤ cap) :
     ldelivered (LRecv.init cap) (ps.flatMap encodeLeg) = ps :=
   lframes_from_ready (LRecv.init cap) (Or.inl (Or.inr rfl)) ps hcap
+
+/-! ### legacy receiver: soundness and the overflow clause (after `fix: legacy gstuff
+receiver hunts for the start marker`; before it both clauses were false, see the two
+historical witnesses below) -/
+
+/-- LEGACY SOUNDNESS, same shape as `recv_sound`.  Whenever the legacy receiver
+answers NEWPACKAGE (to byte `c` after ANY stream `bs`, any capacity): `c` is the
+marker, a marker was received before, and the unescaping of the raw bytes since
+the LAST marker is exactly the delivered packet followed by its CRC-8 — where
+the packet is the line without its last byte (the legacy receiver leaves the
+CRC byte in the line, which therefore is never empty here). -/
+theorem legacy_sound (cap : Nat) (bs : List Byte) (c : Byte)
+    (hn : (lnewchar (lfeed (LRecv.init cap) bs).1 c).2 = NEWPACKAGE) :
+    c = legStart ∧ ∃ since, sinceLastStart legStart bs = some since ∧
+      unescape Ctx.leg since =
+        some ((lnewchar (lfeed (LRecv.init cap) bs).1 c).1.line.dropLast ++
+              [strmcrc8 0xFF#8 (lnewchar (lfeed (LRecv.init cap) bs).1 c).1.line.dropLast]) ∧
+      (lnewchar (lfeed (LRecv.init cap) bs).1 c).1.line ≠ [] := by
+  have hs := lfeed_sound (LRecv.init cap) none bs (by simp [LSound, LRecv.init])
+  exact lnewpackage_sound _ _ c hs hn
+
+-- non-vacuity: the frame of [41] is answered with NEWPACKAGE on its closing marker
+example : (lnewchar (lfeed (LRecv.init 8) [legStart, 0x41#8, strmcrc8 0xFF#8 [0x41#8]]).1 legStart).2
+    = NEWPACKAGE := by decide +kernel
+
+/-- LEGACY OVERFLOW CLAUSE, from ANY reachable state (any history `g`), any
+capacity, ANY byte sequence between two markers whose unescaping is valid up
+to a point where it has grown beyond capacity-1 bytes: OVERFLOW is answered;
+the only thing that can be delivered is a packet completed by the OPENING
+marker (begun inside `g`) — nothing of the over-long frame; and the receiver
+ends primed for the next frame. -/
+theorem legacy_overflow_reported (cap : Nat) (g pre rest : List Byte)
+    (hnm : ∀ b ∈ pre ++ rest, b ≠ legStart)
+    (u : List Byte) (pend : Bool) (hu : unescPartial Ctx.leg pre = some (u, pend))
+    (hbig : cap - 1 < u.length) :
+    OVERFLOW ∈ (lfeed (lfeed (LRecv.init cap) g).1 (legStart :: ((pre ++ rest) ++ [legStart]))).2 ∧
+    ldelivered (lfeed (LRecv.init cap) g).1 (legStart :: ((pre ++ rest) ++ [legStart])) =
+      ldelivered (lfeed (LRecv.init cap) g).1 [legStart] ∧
+    (lfeed (lfeed (LRecv.init cap) g).1 (legStart :: ((pre ++ rest) ++ [legStart]))).1 =
+      ⟨.l1, 0xFF#8, [], cap⟩ := by
+  have hgood : LGood (lfeed (LRecv.init cap) g).1 := lfeed_good _ _ (by simp [LGood, LRecv.init])
+  have hcap : (lfeed (LRecv.init cap) g).1.cap = cap := lfeed_cap _ _
+  generalize (lfeed (LRecv.init cap) g).1 = r at hgood hcap
+  obtain ⟨hm, hmc⟩ := lafter_marker r hgood
+  rw [hcap] at hm hmc
+  -- the body, fed to the primed receiver
+  obtain ⟨o1, o2, o3⟩ := lfeed_body_overflow ⟨.l1, 0xFF#8, [], cap⟩ pre rest (Or.inl rfl)
+    (by simp [LLineOK]) hnm u pend (by simpa [unescFrom, unescPartial] using hu) hbig
+  -- the receiver after the opening marker behaves like the primed one on the (non-empty) body
+  have hne : pre ++ rest ≠ [] := by
+    intro he
+    have : pre = [] := (List.append_eq_nil_iff.mp he).1
+    subst this
+    simp [unescPartial] at hu
+    rw [hu.1] at hbig; simp at hbig
+  have hsame : lfeed (lnewchar r legStart).1 (pre ++ rest) = lfeed ⟨.l1, 0xFF#8, [], cap⟩ (pre ++ rest) ∧
+      ldelivered (lnewchar r legStart).1 (pre ++ rest) = ldelivered ⟨.l1, 0xFF#8, [], cap⟩ (pre ++ rest) := by
+    rcases hm with h0 | h1
+    · obtain ⟨c, cs, hcs⟩ := List.exists_cons_of_ne_nil hne
+      generalize (lnewchar r legStart).1 = r1 at h0 hmc
+      obtain ⟨st, crc, line, cap1⟩ := r1
+      simp only at h0 hmc; subst h0; subst hmc
+      rw [hcs]; exact lfeed_l0 crc line cap1 c cs
+    · rw [h1]; exact ⟨rfl, rfl⟩
+  -- the closing marker primes the hunting receiver
+  have hclose : ∀ r3 : LRecv, r3.state = .l3 → r3.cap = cap →
+      lnewchar r3 legStart = (⟨.l1, 0xFF#8, [], cap⟩, CONTINUE) := by
+    intro r3 h3 hc3
+    obtain ⟨st, crc, line, cap3⟩ := r3
+    simp only at h3 hc3; subst h3; subst hc3
+    rw [lnewchar_l3]; simp
+  have hc3 : (lfeed ⟨.l1, 0xFF#8, [], cap⟩ (pre ++ rest)).1.cap = cap := lfeed_cap _ _
+  have hcl := hclose _ o2 hc3
+  generalize pre ++ rest = body at o1 o2 o3 hsame hcl ⊢
+  simp only [lfeed, ldelivered, lfeed_append, ldelivered_append, hsame.1, hsame.2, o3,
+    hcl, List.nil_append]
+  refine ⟨List.mem_cons_of_mem _ (List.mem_append_left _ o1), ?_, trivial⟩
+  split <;> simp [CONTINUE, NEWPACKAGE]
+
+-- non-vacuity: 41 42 43 does not fit into a 3-byte buffer
+example : (∀ b ∈ [0x41#8, 0x42#8, 0x43#8] ++ ([] : List Byte), b ≠ legStart) ∧
+    unescPartial Ctx.leg [0x41#8, 0x42#8, 0x43#8] = some ([0x41#8, 0x42#8, 0x43#8], false) ∧
+    3 - 1 < [0x41#8, 0x42#8, 0x43#8].length := by decide
+
+/-- historical witness for the overflow clause (audit finding, defect
+C05-legacy-no-hunt): the WELL-FORMED frame of the payload 01 02 EB 41 does not
+fit into a 3-byte buffer; before the repair the receiver answered OVERFLOW on EB
+and then delivered the tail `41` as a packet (statuses C C C O C C N); the
+repaired receiver skips the tail -/
+theorem legacy_overflow_tail_witness :
+    gstuffingLeg [0x01#8, 0x02#8, 0xEB#8, 0x41#8] = [0xAC#8, 0x01#8, 0x02#8, 0xEB#8, 0x41#8, 0xA0#8, 0xAC#8] ∧
+    (lfeed (LRecv.init 3) (gstuffingLeg [0x01#8, 0x02#8, 0xEB#8, 0x41#8])).2 =
+      [CONTINUE, CONTINUE, CONTINUE, OVERFLOW, CONTINUE, CONTINUE, CONTINUE] ∧
+    ldelivered (LRecv.init 3) (gstuffingLeg [0x01#8, 0x02#8, 0xEB#8, 0x41#8]) = [] := by
+  decide +kernel
 
 /-- historical witness (defect C05-legacy-no-hunt, repaired by `fix: legacy
 receiver hunts for the start marker`): before the repair `41 crc AC` with no
